@@ -179,8 +179,9 @@ def make_shapes(env):
     def mk(n):
         def short(e): return e.name[:n]
         return short
+    hyb = {n: mk(n) for n in (1, 2, 3)}     # one function object per value: the key contains the function
     def r_hyb(n):
-        f = mk(n)
+        f = hyb[n]
         return select(f(e) for e in E)
     def f_estart(q, k): return q.filter(lambda e: e.name[k:] != '')
     def f_sstart(q, k): return q.filter(lambda s: s[k:] != '')
@@ -784,9 +785,11 @@ def run(ctx, extra=None):
     env = Env()
     try:
         if extra is not None: replay_input(ctx, env, extra)
-        part3(ctx, env)
-        part1(ctx, env)
-        part2(ctx, env)
+        import time
+        t0 = time.time(); part3(ctx, env)
+        t1 = time.time(); part1(ctx, env)
+        t2 = time.time(); part2(ctx, env)
+        ctx.extra['part_seconds'] = {'cross-thread': round(t1 - t0, 1), 'translator-cache': round(t2 - t1, 1), 'all-caches': round(time.time() - t2, 1)}
     finally:
         env.close()
 
